@@ -346,27 +346,41 @@ def rule_r3(ck, prog, roles, notified, need_exporter_flush=False):
         if en is not None and en['k'] == 'lit' and en.get('v') == 0:
             ck.holds('C02.R3', f, 'return-false', rp.n, 'returns false')
             continue
-        ok = False
-        for i in f.subtree(e):
-            c = comparison(f, i)
-            if not c:
-                continue
-            op, l, r = c
-            lm, rm = strip_casts(f, l), strip_casts(f, r)
-            if atomic_op(rm) and not atomic_op(lm):
-                op, l, r, lm, rm = FLIP[op], r, l, rm, lm
-            o = atomic_op(lm)
-            if not (o and o[0] == 'load' and path_str(access_path(f, lm['obj'])) == notified):
-                continue
-            if op != '>=':
-                continue
-            srcs = origins(g, rd, f, r, rp.ctx)
-            for (sf, sn, sctx) in srcs:
-                for j in sf.subtree(sn['i']):
-                    oo = atomic_op(sf.nodes[j])
-                    if oo and oo[1] in ('fetch_add', 'operator++', 'operator+=') and \
-                            path_str(access_path(sf, sf.nodes[j]['obj'], sctx)) == roles.pending:
-                        ok = True
+        NEG = {'>=': '<', '<': '>=', '>': '<=', '<=': '>', '==': '!=', '!=': '=='}
+
+        def has_op(idx, ctx, pred):
+            for (sf, sn, sc) in origins(g, rd, f, idx, ctx):
+                for k in sf.subtree(sn['i']):
+                    oo = atomic_op(sf.nodes[k])
+                    if oo and pred(oo, sf, sf.nodes[k], sc):
+                        return True
+            return False
+        is_notified = lambda oo, sf, n, sc: oo[0] == 'load' and path_str(access_path(sf, n['obj'], sc)) == notified
+        is_ticket = lambda oo, sf, n, sc: oo[1] in ('fetch_add', 'operator++', 'operator+=') and path_str(access_path(sf, n['obj'], sc)) == roles.pending
+
+        def implies(idx, ctx, positive=True, depth=4):
+            """does `value of idx is true` (false when not positive) imply notified >= own ticket? Boolean locals are followed to
+            all of their definitions; a true conjunction implies each conjunct, a true disjunction needs both sides to imply."""
+            core, pol = norm_cond(f, idx)
+            pos = positive if pol else (not positive)
+            c = comparison(f, core)
+            if c:
+                op, l, r = (c[0] if pos else NEG[c[0]]), c[1], c[2]
+                if has_op(r, ctx, is_notified) and not has_op(l, ctx, is_notified):
+                    op, l, r = FLIP[op], r, l
+                return op == '>=' and has_op(l, ctx, is_notified) and has_op(r, ctx, is_ticket)
+            cn = strip_casts(f, core)
+            if cn['k'] == 'lit':
+                return bool(cn.get('v')) is not pos      # the literal that makes the premise unsatisfiable
+            if cn['k'] == 'binop' and cn['op'] in ('&&', '||'):
+                conj = (cn['op'] == '&&') is pos
+                a, b = implies(cn['lhs'], ctx, pos, depth), implies(cn['rhs'], ctx, pos, depth)
+                return (a or b) if conj else (a and b)
+            if cn['k'] == 'ref' and cn.get('sk') == 'local' and depth > 0:
+                srcs = [(sf, sn, sc) for (sf, sn, sc) in origins(g, rd, f, core, ctx) if sf is f and sn['i'] != core]
+                return bool(srcs) and all(implies(sn['i'], sc, pos, depth - 1) for (sf, sn, sc) in srcs)
+            return False
+        ok = implies(e, rp.ctx)
         if ok:
             ck.holds('C02.R3', f, 'return-compares-own-ticket', rp.n, 'return value contains notified >= own ticket')
         else:
